@@ -73,8 +73,9 @@ type Scenario struct {
 	SegMode   int              `json:"segmode,omitempty"`
 	Transport string           `json:"transport,omitempty"` // session: tcp (through the middlebox) | udp (concurrent clients, server with a TSIG provider that takes a scheduling point)
 	Clients   int              `json:"clients,omitempty"`
-	Burst     bool             `json:"burst,omitempty"`    // udp: every client sends all its requests before reading any reply
-	Xfer      json.RawMessage  `json:"transfer,omitempty"` // kind transfer: a zone-transfer session with TSIG (scenario of the C15 harness)
+	Async     bool             `json:"async_reply,omitempty"` // session: the handler returns at once and answers from another task a little later, through the ResponseWriter it was given
+	Burst     bool             `json:"burst,omitempty"`       // udp: every client sends all its requests before reading any reply
+	Xfer      json.RawMessage  `json:"transfer,omitempty"`    // kind transfer: a zone-transfer session with TSIG (scenario of the C15 harness)
 }
 
 const (
@@ -113,6 +114,9 @@ func Gen(seed uint64, tier string) any {
 		sc.SegMode = r.IntN(3)
 		sc.ServerKey = core.Pick(r, "right", "right", "right", "right", "wrong", "none", "empty")
 		sc.Transport = core.Pick(r, "tcp", "tcp", "udp")
+		// (datagram sessions only: there every request has a response writer of its own; on a stream the
+		// writer belongs to the connection and the server moves on to the next request when the handler returns)
+		sc.Async = sc.Transport == "udp" && core.Chance(r, 35)
 		sc.Clients = 1
 		if sc.Transport == "udp" {
 			sc.Clients = 1 + r.IntN(4)
@@ -896,7 +900,26 @@ func (s *sess) ServeDNS(w dns.ResponseWriter, r *dns.Msg) {
 		}
 		s.k.Bump("probe.badtime_reply_signed")
 	}
+	if s.sc.Async && s.sc.Transport == "udp" {
+		s.k.Go("async-reply", &lateReply{s.k, w, m, 1 + int(r.Id%3)})
+		s.k.Bump("probe.reply_after_handler_returned")
+		return
+	}
 	w.WriteMsg(m)
+}
+
+// lateReply writes a handler's answer after the handler has returned.
+type lateReply struct {
+	k     *kernel.K
+	w     dns.ResponseWriter
+	m     *dns.Msg
+	steps int
+}
+
+//go:norace
+func (l *lateReply) RunEvent(time.Time) {
+	l.k.WaitSteps("async.steps", l.steps, time.Millisecond)
+	l.w.WriteMsg(l.m)
 }
 
 type sessClient struct{ s *sess }
